@@ -1,5 +1,7 @@
 import OrxPar.Props.C04
+import OrxPar.Props.AllSchedules
 open OrxPar
 #print axioms C04_count
 #print axioms C04_nested_loop
 #print axioms C04_for_each
+#print axioms C04_count_all_schedules
